@@ -271,16 +271,16 @@ Definition header_agrees_b (gs : list group) (h : header) : bool :=
   match r_float0 0 gs nm_POINT nm_RATE with
   | Ok rate =>
     match f_key rate, f_key (h_rate h), r_int0 0 gs nm_POINT nm_USED, group_named gs nm_ANALOG,
-          r_int0 0 gs nm_ANALOG nm_USED, r_int0 0 gs nm_POINT nm_FRAMES, f_tosize rate with
-    | Ok k, Ok k', Ok u, Ok ga, Ok au, Ok fz, Ok rs =>
+          r_int0 0 gs nm_ANALOG nm_USED, r_int0 0 gs nm_POINT nm_FRAMES with
+    | Ok k, Ok k', Ok u, Ok ga, Ok au, Ok fz =>
         (k =? k')%Z && (z_to_usize u =? h_points h) && negb (nlen (g_params ga) =? 0) &&
-        (if rs =? 0 then h_byframe h =? 1
+        (if f32_is_zero rate then h_byframe h =? 1
          else match r_float0 0 gs nm_ANALOG nm_RATE with
               | Ok ar => match f_tosize (f_div ar rate) with Ok b => b =? h_byframe h | _ => false end
               | _ => false
               end) &&
         (z_to_usize au =? h_nb_analogs h) && (z_to_usize fz =? h_nb_frames h)
-    | _, _, _, _, _, _, _ => false
+    | _, _, _, _, _, _ => false
     end
   | _ => false
   end.
@@ -295,18 +295,17 @@ Proof.
   destruct (group_named gs nm_ANALOG) as [ga| |] eqn:Ega; try discriminate.
   destruct (r_int0 0 gs nm_ANALOG nm_USED) as [au| |] eqn:Eau; try discriminate.
   destruct (r_int0 0 gs nm_POINT nm_FRAMES) as [fz| |] eqn:Efz; try discriminate.
-  destruct (f_tosize rate) as [rs| |] eqn:Ers; try discriminate.
   apply andb_prop in H. destruct H as [H H6]. apply andb_prop in H. destruct H as [H H5]. apply andb_prop in H. destruct H as [H H4].
   apply andb_prop in H. destruct H as [H H3]. apply andb_prop in H. destruct H as [H1 H2].
   assert (k' = k) by lia. subst k'.
   exists rate, k, u, ga, au, fz.
   split; [exact Er|]. split; [exact Ek|]. split; [exact Ek'|]. split; [exact Eu|]. split; [lia|].
   split; [exact Ega|]. split; [lia|]. split.
-  - destruct (rs =? 0) eqn:Z0.
-    + left. split; [rewrite Ers; f_equal; lia|lia].
+  - destruct (f32_is_zero rate) eqn:Z0.
+    + left. split; [reflexivity|lia].
     + right. destruct (r_float0 0 gs nm_ANALOG nm_RATE) as [ar| |] eqn:Ear; try discriminate.
       destruct (f_tosize (f_div ar rate)) as [b| |] eqn:Eb; try discriminate.
-      exists rs, ar. split; [exact Ers|]. split; [lia|]. split; [first [exact Ear|reflexivity]|]. first [rewrite Eb|idtac]. f_equal. lia.
+      exists ar. split; [reflexivity|]. split; [first [exact Ear|reflexivity]|]. first [rewrite Eb|idtac]. f_equal. lia.
   - split; [exact Eau|]. split; [lia|]. split; [exact Efz|lia].
 Qed.
 
